@@ -4,9 +4,14 @@
 //                               (to_request / to_response), then EVERY object header is iterated and a
 //                               canonical listing is printed
 //   display <level> <hex>       runs the Display/format paths at the given decode level (panic hunting)
-//   encode <builder> ...        the master's request builders (master/request.rs + app/format/write.rs) and
-//                               the outstation's writers; prints `bytes <hex>`, then the listing of `parse`
-//                               applied to those bytes
+//   encode <builder> ...        the master's request builders (master/request.rs + app/format/write.rs); prints
+//                               `bytes <hex>`, then the listing of `parse` applied to those bytes
+//   dbwrite <budget> <point>... the outstation's RangeWriter / EventWriter, which live in the private module
+//                               outstation::database::details and are reached through the production Database:
+//                               points are added, updated (one forced event each when they have a class), classes
+//                               1, 2, 3 and 0 are selected and the response object headers are written; prints
+//                               `bytes <hex>` (behind a response header) and the listing of `parse`.  Not modelled
+//                               here (the `db` engine models the writers): checked by the oracle only.
 //
 // Canonical listing (decimal numbers, lowercase hex, `-` = empty / absent):
 //   frag <function> <fir><fin><con><uns> <seq> <iin1> <iin2>     | hdr-err insufficient | hdr-err unknown-function <seq> <code>
@@ -423,7 +428,7 @@ fn command_header(gv: &str, prefix: &str, args: &[String]) -> crate::master::Com
 /// `encode <seq> <function> <header>...` where headers are separated by `/`:
 ///    all <g> <v> | range8 <g> <v> <start> <stop> | range16 <g> <v> <start> <stop> | count8 <g> <v> <n> |
 ///    count16 <g> <v> <n> | classes <c1><c2><c3><c0> | cmd <gNvM> <8|16> <index>:<hex>... |
-///    one <gNvM> <hex>   (write_count_of_one) | restart (write_clear_restart)
+///    one <gNvM> <hex>   (write_count_of_one) | restart (write_clear_restart) | attr <set> <var> <type> <value>
 /// built with the production HeaderWriter through the master's request types where they exist
 fn encode(op: &[String], capacity: usize) -> Result<Vec<u8>, String> {
     use crate::master::{Classes, EventClasses, ReadHeader};
@@ -458,6 +463,28 @@ fn encode(op: &[String], capacity: usize) -> Result<Vec<u8>, String> {
                 }
             }
             "restart" => writer.write_clear_restart(),
+            "attr" => {
+                // attr <set> <var> <type> <value>: HeaderWriter::write_attribute of an OwnedAttribute
+                use crate::app::attr::{AttrSet, AttrWriteError, OwnedAttrValue, OwnedAttribute};
+                let value = match h[3].as_str() {
+                    "int" => OwnedAttrValue::SignedInt(h[4].parse::<i64>().unwrap() as i32),
+                    "uint" => OwnedAttrValue::UnsignedInt(h[4].parse().unwrap()),
+                    "vstr" => OwnedAttrValue::VisibleString(String::from_utf8(unhex(&h[4])).expect("utf8")),
+                    "ostr" => OwnedAttrValue::OctetString(unhex(&h[4])),
+                    "bstr" => OwnedAttrValue::BitString(unhex(&h[4])),
+                    "f32" => OwnedAttrValue::FloatingPoint(FloatType::F32(f32::from_bits(h[4].parse().unwrap()))),
+                    "f64" => OwnedAttrValue::FloatingPoint(FloatType::F64(f64::from_bits(h[4].parse().unwrap()))),
+                    "time" => OwnedAttrValue::Dnp3Time(crate::app::Timestamp::new(h[4].parse().unwrap())),
+                    x => panic!("bad attribute type {}", x),
+                };
+                let attr = OwnedAttribute::new(AttrSet::new(h[1].parse().unwrap()), h[2].parse().unwrap(), value);
+                match writer.write_attribute(&attr) {
+                    Ok(()) => Ok(()),
+                    // every cursor operation of write_attribute is a write: the only cursor error is an overflow
+                    Err(AttrWriteError::Cursor) => return Err("write-overflow".to_string()),
+                    Err(AttrWriteError::BadAttribute(_)) => return Err("attr-bad-length".to_string()),
+                }
+            }
             x => panic!("bad encode header {}", x),
         };
         res.map_err(|e| match e {
@@ -467,6 +494,84 @@ fn encode(op: &[String], capacity: usize) -> Result<Vec<u8>, String> {
         })?;
     }
     Ok(cursor.written().to_vec())
+}
+
+/// `dbwrite <budget> <type>,<index>,<class>,<svar>,<evar>,<value>,<flags>,<time> ...`
+///   type: bi dbi ctr ai oct; svar/evar: variation number within the type's static / event group;
+///   value: bi 0|1, dbi 0..3, ctr u32, ai f64 bits (hex), oct hex; time: n | s<ms> | u<ms>
+fn dbwrite(op: &[String]) -> Vec<u8> {
+    use crate::app::measurement::*;
+    use crate::app::parse::parser::HeaderCollection;
+    use crate::app::Timestamp;
+    use crate::outstation::database::read::ReadHeader;
+    use crate::outstation::database::*;
+
+    let cfg = EventBufferConfig::new(1000, 1000, 1000, 1000, 1000, 1000, 1000, 1000);
+    let mut db = Database::new(None, ClassZeroConfig::new(true, true, true, true, true, true, true, true), cfg);
+    let opts = UpdateOptions::new(true, EventMode::Force);
+    for p in &op[2..] {
+        let t: Vec<&str> = p.split(',').collect();
+        let idx: u16 = t[1].parse().unwrap();
+        let class = match t[2] {
+            "0" => None,
+            "1" => Some(EventClass::Class1),
+            "2" => Some(EventClass::Class2),
+            "3" => Some(EventClass::Class3),
+            x => panic!("bad class {}", x),
+        };
+        let (sv, ev): (u8, u8) = (t[3].parse().unwrap(), t[4].parse().unwrap());
+        let flags = Flags::new(u8::from_str_radix(t[6], 16).unwrap());
+        let time = match t[7].split_at(1) {
+            ("n", _) => None,
+            ("s", x) => Some(Time::Synchronized(Timestamp::new(x.parse().unwrap()))),
+            ("u", x) => Some(Time::Unsynchronized(Timestamp::new(x.parse().unwrap()))),
+            _ => panic!("bad time"),
+        };
+        match t[0] {
+            "bi" => {
+                let s = match sv { 1 => StaticBinaryInputVariation::Group1Var1, 2 => StaticBinaryInputVariation::Group1Var2, _ => panic!("svar") };
+                let e = match ev { 1 => EventBinaryInputVariation::Group2Var1, 2 => EventBinaryInputVariation::Group2Var2, 3 => EventBinaryInputVariation::Group2Var3, _ => panic!("evar") };
+                db.add(idx, class, BinaryInputConfig { s_var: s, e_var: e });
+                db.update2(idx, &BinaryInput { value: t[5] == "1", flags, time }, opts);
+            }
+            "dbi" => {
+                let s = match sv { 1 => StaticDoubleBitBinaryInputVariation::Group3Var1, 2 => StaticDoubleBitBinaryInputVariation::Group3Var2, _ => panic!("svar") };
+                let e = match ev { 1 => EventDoubleBitBinaryInputVariation::Group4Var1, 2 => EventDoubleBitBinaryInputVariation::Group4Var2, 3 => EventDoubleBitBinaryInputVariation::Group4Var3, _ => panic!("evar") };
+                let v = match t[5] { "0" => DoubleBit::Intermediate, "1" => DoubleBit::DeterminedOff, "2" => DoubleBit::DeterminedOn, _ => DoubleBit::Indeterminate };
+                db.add(idx, class, DoubleBitBinaryInputConfig { s_var: s, e_var: e });
+                db.update2(idx, &DoubleBitBinaryInput { value: v, flags, time }, opts);
+            }
+            "ctr" => {
+                let s = match sv { 1 => StaticCounterVariation::Group20Var1, 2 => StaticCounterVariation::Group20Var2, 5 => StaticCounterVariation::Group20Var5, 6 => StaticCounterVariation::Group20Var6, _ => panic!("svar") };
+                let e = match ev { 1 => EventCounterVariation::Group22Var1, 2 => EventCounterVariation::Group22Var2, 5 => EventCounterVariation::Group22Var5, 6 => EventCounterVariation::Group22Var6, _ => panic!("evar") };
+                db.add(idx, class, CounterConfig::new(s, e, 0));
+                db.update2(idx, &Counter { value: t[5].parse().unwrap(), flags, time }, opts);
+            }
+            "ai" => {
+                let s = match sv { 1 => StaticAnalogInputVariation::Group30Var1, 2 => StaticAnalogInputVariation::Group30Var2, 3 => StaticAnalogInputVariation::Group30Var3, 4 => StaticAnalogInputVariation::Group30Var4, 5 => StaticAnalogInputVariation::Group30Var5, 6 => StaticAnalogInputVariation::Group30Var6, _ => panic!("svar") };
+                let e = match ev { 1 => EventAnalogInputVariation::Group32Var1, 2 => EventAnalogInputVariation::Group32Var2, 3 => EventAnalogInputVariation::Group32Var3, 4 => EventAnalogInputVariation::Group32Var4, 5 => EventAnalogInputVariation::Group32Var5, 6 => EventAnalogInputVariation::Group32Var6, 7 => EventAnalogInputVariation::Group32Var7, 8 => EventAnalogInputVariation::Group32Var8, _ => panic!("evar") };
+                db.add(idx, class, AnalogInputConfig::new(s, e, 0.0));
+                db.update2(idx, &AnalogInput { value: f64::from_bits(u64::from_str_radix(t[5], 16).unwrap()), flags, time }, opts);
+            }
+            "oct" => {
+                db.add(idx, class, OctetStringConfig);
+                db.update2(idx, &OctetString::new(&unhex(t[5])).expect("octet string"), opts);
+            }
+            x => panic!("bad point type {}", x),
+        }
+    }
+    // READ class 1, 2, 3, 0 exactly as a master's integrity poll asks for it
+    let request = [60u8, 2, 6, 60, 3, 6, 60, 4, 6, 60, 1, 6];
+    let headers = HeaderCollection::parse(ParseOptions::default(), FunctionCode::Read, &request).expect("class scan");
+    for h in headers.iter() {
+        db.inner.select_by_header(ReadHeader::get(&h).expect("class header"));
+    }
+    let mut buf = vec![0u8; op[1].parse::<usize>().unwrap()];
+    let mut cursor = WriteCursor::new(&mut buf);
+    let _ = db.inner.write_response_headers(&mut cursor);
+    let mut out = vec![0xC0, 0x81, 0x00, 0x00];
+    out.extend_from_slice(cursor.written());
+    out
 }
 
 pub(crate) async fn run_app(script: &Script, obs: &mut Vec<String>) {
@@ -497,6 +602,11 @@ pub(crate) async fn run_app(script: &Script, obs: &mut Vec<String>) {
                     obs.push("end".to_string());
                 }
             },
+            "dbwrite" => {
+                let bytes = dbwrite(op);
+                obs.push(format!("bytes {}", hex(&bytes)));
+                parse_and_list(opts, "resp", &bytes, obs);
+            }
             x => panic!("bad op {}", x),
         }
     }
